@@ -78,6 +78,61 @@ pub fn with_unrelated_definition(text: &str, k: usize) -> Option<(String, String
     Some((out.join("\n"), format!("{} {:?}", b.btype, b.name)))
 }
 
+/// Text with the `k`-th by-name block (CONSTRUCTION blocks included) copied right after itself
+/// under a new name and with OTHER VALUES: every number of the copy is multiplied by 1.5, and a
+/// copied CONSTRUCTION gets the finish ABSORPTANCE = 0.9 (a second finish of the same layers).
+/// Nothing refers to the copy.
+pub fn with_revalued_copy(text: &str, k: usize) -> Option<(String, String)> {
+    let lines = diskfault::split_lines(text);
+    let blocks: Vec<_> = diskfault::scan_blocks(&lines)
+        .into_iter()
+        .filter(|b| UNRELATED_TYPES.contains(&b.btype.as_str()) || b.btype == "CONSTRUCTION")
+        .collect();
+    if blocks.is_empty() {
+        return None;
+    }
+    // constructions are many (one per wall): give them half of the picks
+    let cons: Vec<_> = blocks.iter().filter(|b| b.btype == "CONSTRUCTION").collect();
+    let b = if k % 2 == 0 && !cons.is_empty() { cons[(k / 2) % cons.len()] } else { &blocks[k % blocks.len()] };
+    let header = lines[b.start];
+    let spans = diskfault::quoted_spans(header);
+    let (_, e) = *spans.first()?;
+    let new_name = format!("{}0.90", b.name);
+    if text.contains(&format!("\"{}\"", new_name)) {
+        return None;
+    }
+    let mut out: Vec<String> = lines[..=b.end].iter().map(|s| s.to_string()).collect();
+    out.push(format!("{}0.90{}", &header[..e], &header[e..]));
+    let mut has_abs = false;
+    for l in &lines[b.start + 1..b.end] {
+        let t = l.trim_start();
+        if b.btype == "CONSTRUCTION" && t.starts_with("ABSORPTANCE") {
+            has_abs = true;
+            out.push("                        ABSORPTANCE = 0.900000".to_string());
+            continue;
+        }
+        let sp = diskfault::numeric_spans(l);
+        if let Some((s0, e0)) = sp.first() {
+            if let Ok(x) = l[*s0..*e0].parse::<f64>() {
+                // only plain decimal values (an integer may be a count, a list has its own syntax)
+                if x.is_finite() && x > 0.0 && x < 1.0e6 && l[*s0..*e0].contains('.') && !l.contains('(') && sp.len() == 1 {
+                    out.push(format!("{}{}{}", &l[..*s0], ((x * 1.5) * 1000.0).round() / 1000.0, &l[*e0..]));
+                    continue;
+                }
+            }
+        }
+        out.push(l.to_string());
+    }
+    if b.btype == "CONSTRUCTION" && !has_abs {
+        out.push("                        ABSORPTANCE = 0.900000".to_string());
+    }
+    out.push(lines[b.end].to_string());
+    for l in &lines[b.end + 1..] {
+        out.push(l.to_string());
+    }
+    Some((out.join("\n"), format!("{} {:?} with other values", b.btype, b.name)))
+}
+
 /// A name that differs from `name` only in letter case / in repeated blanks (None when the
 /// transformation leaves it unchanged).
 pub fn near_name(name: &str, how: &str) -> Option<String> {
@@ -266,6 +321,7 @@ pub fn exec_op(op: &Value) -> Value {
                         renamed = Some(n);
                         (t, w)
                     }
+                    "revalued_copy" => with_revalued_copy(&text, kk).ok_or_else(|| "no eligible block".to_string())?,
                     m if m.starts_with("near:") => with_near_name_copy(&text, kk, &m[5..]).ok_or_else(|| "no eligible block".to_string())?,
                     _ => with_unrelated_definition(&text, kk).ok_or_else(|| "no eligible block".to_string())?,
                 };
